@@ -131,6 +131,7 @@ def run_impl(specs, data_file, scheduler="batch", argv=(), failing_builds=(), se
     by_name = {s.name: s for s in specs}
     obs = Obs()
     obs.events = []        # ("build", (text, cwd), ok) | ("start", name, inv) | ("rec", name, inv) | ("aborted", name)
+    obs.cwds = {}          # name -> the working directories its processes were started in
     obs.picks = []         # names, one per Executor.execute_run call, in order of the calls
     obs.loaded = {}
     obs.order = []
@@ -169,6 +170,7 @@ def run_impl(specs, data_file, scheduler="batch", argv=(), failing_builds=(), se
         p = args.split()
         with lock:
             obs.events.append(("start", p[-2], int(p[-1])))
+            obs.cwds.setdefault(p[-2], set()).add(cwd)
 
     o_add, o_exec, o_failed, o_choice = RunId.add_data_point, rexec.Executor.execute_run, RunId.report_run_failed, rexec.random.choice
 
